@@ -284,3 +284,136 @@ def validate_translation(seed, n=40):
             else: ok = "c" in a and close(want["center"], a["c"]) and close(want["radius"], a["r"])
             if not ok: bad.append({"fn": path, "req": req, "real": a, "term": want})
     return total, bad
+
+
+# ---------------------------------------------------------------- replay of refuted helper obligations on the real compiled functions
+def _v(*xs): return list(xs)
+def _sub(a, b): return [x - y for x, y in zip(a, b)]
+def _add(a, b): return [x + y for x, y in zip(a, b)]
+def _dot(a, b): return sum(x * y for x, y in zip(a, b))
+def _cross(a, b): return [a[1] * b[2] - a[2] * b[1], a[2] * b[0] - a[0] * b[2], a[0] * b[1] - a[1] * b[0]]
+def _n(a): return _dot(a, a) ** 0.5
+def _num(x):
+    import math
+    return math.nan if x is None else float(x)
+def _vec3(x): return [_num(c) for c in (x or [None] * 3)]
+
+# helper -> (replay fn name, {request key: model variable stem | scalar name})
+_RP = {
+    "intersect_planes": ("intersect_planes", {"n0": "p0_n", "p0": "p0_p", "n1": "p1_n", "p1": "p1_p", "n2": "p2_n", "p2": "p2_p"}),
+    "project_onto": ("project_onto", {"n": "pl_n", "p": "pl_p", "x": "x"}),
+    "project_onto_intersection": ("project_onto_intersection", {"n0": "pa_n", "p0": "pa_p", "n1": "pb_n", "p1": "pb_p", "x": "x"}),
+    "signed_volume_tet": ("signed_volume_tet", {"v0": "v0", "v1": "v1", "v2": "v2", "v3": "v3"}),
+    "signed_area_tri": ("signed_area_tri", {"v0": "v0", "v1": "v1", "v2": "v2", "t": "t"}),
+    "from_two_points": ("from_two_points", {"a": "a", "b": "b"}),
+    "from_three_points": ("from_three_points", {"a": "a", "b": "b", "c": "c"}),
+    "from_four_points": ("from_four_points", {"a": "a", "b": "b", "c": "c", "d": "d"}),
+    "extend": ("extend", {"c": "c", "x": "x", "r": "@r"}),
+    "contains": ("contains", {"c": "c", "x": "x", "r": "@r"}),
+}
+
+
+def _residuals(helper, q, call):
+    """The defining equations of the property statement evaluated on the REAL function's output for request q.
+    Returns {clause: (violated?, detail)}; tolerances are relative to the input scale (1e-7: far above rounding, far below any real defect)."""
+    import math
+    sc = max([1.0] + [abs(c) for k, v in q.items() if isinstance(v, list) for c in v] + [abs(v) for v in q.values() if isinstance(v, float)])
+    tol = 1e-7 * sc * sc
+    bad = lambda x: (not math.isfinite(x)) or abs(x) > tol
+    out = {}
+    a = call(q)
+    if a.get("panic"): return {"*": (False, "real function panics on this input (outside the precondition)")}
+    if helper == "intersect_planes":
+        r = _vec3(a.get("r"))
+        for i in range(3):
+            e = _dot(_sub(r, q["p%d" % i]), q["n%d" % i]); out["on_plane_%d" % i] = (bad(e), e)
+    elif helper == "project_onto":
+        r = _vec3(a.get("r")); e = _dot(_sub(r, q["p"]), q["n"]); out["lands_on_plane"] = (bad(e), e)
+        e = _n(_cross(_sub(r, q["x"]), q["n"])); out["displacement_parallel_to_normal"] = (bad(e), e)
+        r2 = _vec3(call(dict(q, x=r)).get("r")); e = _n(_sub(r2, r)); out["idempotent"] = (bad(e), e)
+    elif helper == "project_onto_intersection":
+        r = _vec3(a.get("r"))
+        e = _dot(_sub(r, q["p0"]), q["n0"]); out["on_first_plane"] = (bad(e), e)
+        e = _dot(_sub(r, q["p1"]), q["n1"]); out["on_second_plane"] = (bad(e), e)
+        e = _dot(_sub(r, q["x"]), _cross(q["n0"], q["n1"])); out["displacement_orthogonal_to_line"] = (bad(e), e)
+        r2 = _vec3(call(dict(q, x=r)).get("r")); e = _n(_sub(r2, r)); out["idempotent"] = (bad(e), e)
+    elif helper == "signed_volume_tet":
+        v = [q["v%d" % i] for i in range(4)]; r = _num(a.get("r"))
+        e = r - _dot(_cross(_sub(v[1], v[0]), _sub(v[2], v[0])), _sub(v[3], v[0])) / 6.0; out["equals_triple_product_over_6"] = (bad(e), e)
+        for name, perm in (("swap01", (1, 0, 2, 3)), ("swap12", (0, 2, 1, 3)), ("swap23", (0, 1, 3, 2)), ("swap03", (3, 1, 2, 0))):
+            rs = _num(call(dict(q, **{"v%d" % i: v[perm[i]] for i in range(4)})).get("r")); e = rs + r; out["antisymmetric_" + name] = (bad(e), e)
+    elif helper == "signed_area_tri":
+        v0, v1, v2, t = q["v0"], q["v1"], q["v2"], q["t"]; r = _num(a.get("r"))
+        nrm = [0.5 * c for c in _cross(_sub(v1, v0), _sub(v2, v0))]; h = _dot(_sub(t, v0), nrm)
+        e = r * r - _dot(nrm, nrm); out["square_is_area_squared"] = (bad(e), e)
+        out["sign_is_side_of_apex"] = (bool((h > tol and r < -tol) or (h < -tol and r > tol)) or not math.isfinite(r), (h, r))
+        rs = _num(call(dict(q, v1=v2, v2=v1)).get("r")); e = rs + r; out["antisymmetric_swap12"] = (abs(h) > tol and bad(e), e)
+    elif helper.startswith("from_"):
+        c, r = _vec3(a.get("c")), _num(a.get("r"))
+        pts = [q[k] for k in "abcd" if k in q]
+        for i, p in enumerate(pts):
+            e = _dot(_sub(c, p), _sub(c, p)) - r * r; out["passes_through_point_%d" % i] = (bad(e), e)
+        out["radius_nonneg"] = (not (r >= 0), r)
+        if helper == "from_two_points": e = _n(_sub([2 * x for x in c], _add(pts[0], pts[1]))); out["centre_is_midpoint"] = (bad(e), e)
+        if helper == "from_three_points":
+            e = _dot(_sub(c, pts[2]), _cross(_sub(pts[0], pts[2]), _sub(pts[1], pts[2]))); out["centre_in_plane_of_points"] = (bad(e), e)
+    elif helper == "extend":
+        c0, r0, x = q["c"], q["r"], q["x"]; c, r = _vec3(a.get("c")), _num(a.get("r"))
+        d2 = _dot(_sub(x, c0), _sub(x, c0)); inside = r0 > 0 and d2 <= r0 * r0 * (1 + 1e-10)
+        if inside:
+            e = _n(_sub(c, c0)) + abs(r - r0); out["unchanged_if_contained"] = (bad(e), e)
+        elif r0 > 0:
+            e = _dot(_sub(c, x), _sub(c, x)) - r * r; out["new_point_on_surface"] = (bad(e), e)
+            e = _dot(_sub(c, c0), _sub(c, c0)) - (r - r0) ** 2; out["old_sphere_internally_tangent"] = (bad(e) or not (r >= r0 - tol), e)
+            e = _n(_cross(_sub(c, c0), _sub(x, c0))); out["centre_on_axis"] = (bad(e), e)
+    elif helper == "contains":
+        c0, r0, x = q["c"], q["r"], q["x"]; res = a.get("r"); d2 = _dot(_sub(x, c0), _sub(x, c0))
+        if r0 > 0 and d2 <= r0 * r0 * (1 - 1e-9): out["strictly_inside_positive_radius_implies_contained"] = (res is not True, res)
+        if d2 > 2 * r0 * r0 * (1 + 1e-9): out["far_outside_not_contained"] = (res is not False, res)
+    return out
+
+
+def replay_helper(ob):
+    """E2 model -> request on the real compiled helper -> the violated defining equation re-evaluated on its output;
+    if the model input does not reproduce (degenerate / idealised-real corner), a seeded random search over 400 inputs."""
+    import random
+    from ..runner import replay_requests
+    parts = ob.name.split(".")
+    helper, clause = parts[1], parts[-1]
+    if helper not in _RP: return {"reproduced": False, "note": "no replay mapping for " + helper}
+    rname, keys = _RP[helper]
+    m = ob.model or {}
+    def fl(k, d=0.0):
+        try: return float(tm.Fraction(str(m[k]))) if k in m else d
+        except Exception:
+            try: return float(m[k])
+            except Exception: return d
+    def mk(get):
+        q = {}
+        for rk, stem in keys.items():
+            q[rk] = get(stem[1:], True) if stem.startswith("@") else [get("%s_%s" % (stem, ax), False) for ax in "xyz"]
+        return q
+    call = lambda q: replay_requests([dict(q, op="geom", fn=rname)])[0]
+    tried = []
+    q = mk(lambda k, scalar: fl(k, 1.0 if scalar else 0.0))
+    res = _residuals(helper, q, call)
+    tried.append(("model", q, res))
+    rng = random.Random(20260929)
+    hit = None
+    def failing(res):
+        return [c for c, (b, _) in res.items() if b and (c == clause or clause in ("defined",))] or \
+               [c for c, (b, _) in res.items() if b and clause not in res]
+    f = failing(res)
+    if f: hit = ("model", q, res, f)
+    n = 0
+    while hit is None and n < 400:
+        n += 1
+        q = mk(lambda k, scalar: rng.uniform(0.2, 2.0) if scalar else rng.uniform(-3, 3))
+        res = _residuals(helper, q, call)
+        f = failing(res)
+        if f: hit = ("random search #%d" % n, q, res, f)
+    if hit is None:
+        return {"reproduced": False, "model_input": tried[0][1], "searched": n, "note": "the real function satisfies the clause on the model input and on %d random inputs" % n}
+    src, q, res, f = hit
+    return {"reproduced": True, "source": src, "input": q, "request": dict(q, op="geom", fn=rname), "violated_clauses_on_real_code": {c: repr(res[c][1]) for c in f},
+            "what": "geometry::%s called on the real crate: defining equation '%s' does not hold on its output" % (rname, f[0])}
